@@ -17,11 +17,16 @@ type c18Case struct {
 	Wills     int    `json:"wills"`     // 0..3 registered will commands
 	Cause     string `json:"cause"`     // client-close | protocol-error | client-kill
 	CloseAt   string `json:"closeat"`   // before-grant | at-timeout-tick | after-timeout
+	SelfQueue bool   `json:"selfq,omitempty"` // the victim also leaves a request queued behind its OWN hold on key 1 (granted by its will unlock)
 	Reconnect string `json:"reconnect"` // no | before-late-reply | after-late-reply | before-close (the new connection announces the id while the old one is still open)
 }
 
 func (k c18Case) name() string {
-	return fmt.Sprintf("text=%v/init=%v/wills=%d/%s/%s/reconnect=%s", k.Text, k.Init, k.Wills, k.Cause, k.CloseAt, k.Reconnect)
+	n := fmt.Sprintf("text=%v/init=%v/wills=%d/%s/%s/reconnect=%s", k.Text, k.Init, k.Wills, k.Cause, k.CloseAt, k.Reconnect)
+	if k.SelfQueue {
+		n += "/self-queued"
+	}
+	return n
 }
 
 func c18Cases(quick bool) []EnumCase {
@@ -38,8 +43,12 @@ func c18Cases(quick bool) []EnumCase {
 							if !init && rc != "no" {
 								continue
 							}
-							k := c18Case{text, init, wills, cause, at, rc}
+							k := c18Case{Text: text, Init: init, Wills: wills, Cause: cause, CloseAt: at, Reconnect: rc}
 							out = append(out, mkCase(k.name(), k))
+							if !text && init && wills == 3 && at == "before-grant" {
+								k.SelfQueue = true
+								out = append(out, mkCase(k.name(), k))
+							}
 						}
 					}
 				}
@@ -116,6 +125,11 @@ func evalC18(c *Ctx, cs EnumCase) EnumResult {
 			}
 			// a request left queued behind the observer's hold on key 2 (timeout 3 s)
 			_ = v.Send(wire.BinFrame(hapi.Cmd{Type: 1, Req: 3, Key: 2, Id: 3, Timeout: 3, Expried: 6}))
+			if k.SelfQueue {
+				// and one behind the victim's own hold on key 1: the will unlock of that hold grants it while the
+				// connection is being closed; its hold then expires after 3 s
+				_ = v.Send(wire.BinFrame(hapi.Cmd{Type: 1, Req: 4, Key: 1, Id: 4, Timeout: 20, Expried: 3}))
+			}
 		}
 		t0 := vrt.Elapsed()
 		if len(holdersOf(10)) != 0 {
@@ -182,6 +196,16 @@ func evalC18(c *Ctx, cs EnumCase) EnumResult {
 				add("will-run-twice", fmt.Sprintf("the will lock was executed %d times", hs[0].Depth))
 			}
 			h1 := holdersOf(1)
+			if k.SelfQueue {
+				// the queued own request takes key 1 over: only the victim's first hold (LockId 1) must be gone
+				var rest []hapi.Hold
+				for _, h := range h1 {
+					if h.LockId[15] == 1 {
+						rest = append(rest, h)
+					}
+				}
+				h1 = rest
+			}
 			if k.Wills == 3 && len(h1) != 0 && closeT < t0+8*sec {
 				add("will-unlock-not-run", "the will unlock of the connection's own hold on key 1 was not executed")
 			}
@@ -227,13 +251,28 @@ func evalC18(c *Ctx, cs EnumCase) EnumResult {
 			for _, r := range late {
 				if r.Req[0] == 3 {
 					gotLate = true
-				} else if r.Req[0] != 40 && r.Req[0] != 2 && !(r.Req[0] >= 30 && r.Req[0] <= 32) {
+				} else if r.Req[0] != 40 && r.Req[0] != 2 && !(r.Req[0] >= 30 && r.Req[0] <= 32) && !(k.SelfQueue && r.Req[0] == 4) {
 					// 30..32 are the victim's own will commands: their results are addressed to its client id
 					add("reply-misrouted", fmt.Sprintf("the reconnected connection received a frame for RequestId %d", r.Req[0]))
 				}
 			}
 			if (k.Reconnect == "before-late-reply" || k.Reconnect == "before-close") && queuedLive && !gotLate {
 				add("late-reply-not-delivered-to-reconnected-client", fmt.Sprintf("a client announcing the same client id reconnected before the queued request was granted, but the grant reply was not delivered to it (it received %s)", binStr(late)))
+			}
+		}
+		if k.SelfQueue && nc != nil {
+			// the hold granted by the will expires 3 s after the close: its EXPRIED notice is addressed to the
+			// client id and must reach the reconnected connection
+			vrt.AdvanceTo(afterClose + 7*sec)
+			nc.Pump()
+			got := false
+			for _, r := range nc.TakeBin() {
+				if r.Req[0] == 4 && r.Result == 9 {
+					got = true
+				}
+			}
+			if len(holdersOf(1)) == 0 && !got {
+				add("expiry-notice-not-delivered-to-reconnected-client", "the request queued behind the victim's own hold was granted by its will unlock during the close and its hold has expired, but the EXPRIED notice did not reach the connection that reconnected under the same client id")
 			}
 		}
 		// everything drains: the left-behind waiter ends, holds expire, counters return to zero
